@@ -324,6 +324,30 @@ func (m *RWMutex) RUnlock() {
 		m.readers--
 	}
 }
+func (m *RWMutex) TryLock() bool {
+	s := cur()
+	if s == nil {
+		return m.real.TryLock()
+	}
+	if m.w || m.readers > 0 {
+		return false
+	}
+	m.w = true
+	return true
+}
+
+func (m *RWMutex) TryRLock() bool {
+	s := cur()
+	if s == nil {
+		return m.real.TryRLock()
+	}
+	if m.w {
+		return false
+	}
+	m.readers++
+	return true
+}
+
 func (m *RWMutex) RLocker() sync.Locker { return (*rlocker)(m) }
 
 type rlocker RWMutex
@@ -337,12 +361,27 @@ type Once struct {
 	real    sync.Once
 	done    bool
 	running bool
+	mu      sync.Mutex // guards done in pass-through mode
 }
 
 func (o *Once) Do(f func()) {
 	s := cur()
 	if s == nil {
-		o.real.Do(f)
+		// (a Once outlives executions: what ran in one mode has run in the other)
+		o.mu.Lock()
+		done := o.done
+		o.mu.Unlock()
+		if done {
+			return
+		}
+		o.real.Do(func() {
+			defer func() {
+				o.mu.Lock()
+				o.done = true
+				o.mu.Unlock()
+			}()
+			f()
+		})
 		return
 	}
 	s.checkAbort()
